@@ -262,6 +262,35 @@ def _budgets(ctx: Ctx) -> None:
             # fes_for_training, ms_for_training, ...)
             if len(nd.args) > 5:
                 bad.append(nd.args[5])
+    # every budget of the setup reaches the parameter it is named after:
+    # `fes_per_model_run=fes_for_training` gives one phase the budget of
+    # another one
+    import re as _re
+    budgetish = _re.compile(r"fes|ms_|max_time|n_runs|steps")
+    crossed = []
+    n_kw = 0
+    for mod in _modules(ctx):
+        for nd in ast.walk(mod.tree):
+            if not (isinstance(nd, ast.Call) and nd.keywords):
+                continue
+            names = {k.arg for k in nd.keywords if k.arg}
+            for k in nd.keywords:
+                if k.arg and budgetish.search(k.arg) and isinstance(
+                        k.value, ast.Name):
+                    n_kw += 1
+                    if k.value.id != k.arg and k.value.id in names and \
+                            budgetish.search(k.value.id):
+                        crossed.append((mod, nd, k))
+    ctx.count("budget_keywords", n_kw)
+    ctx.ob("D12.2", crossed[0][0] if crossed else es,
+           crossed[0][1] if crossed else es.tree, not crossed,
+           f"all {n_kw} budget keyword arguments of the experiment modules "
+           "receive the value of their own name (none gets the budget of "
+           "another phase of the same call)" if not crossed else
+           "; ".join(f"{m_.name}: `{k_.arg}={k_.value.id}` gives the budget "
+                     f"`{k_.arg}` the value meant for `{k_.value.id}` of the "
+                     "same call" for m_, _n, k_ in crossed[:3]),
+           function="<module>", construct="budgets reach their parameters")
     ctx.need(found >= 1, "experiment_surrogate builds a SurrogateOptimizer")
     ctx.ob("D12.2", es, bad[0] if bad else es.tree, not bad,
            "the bundled surrogate experiment passes FE budgets only" if
